@@ -102,8 +102,8 @@ func runCase(w *tr.Writer, id string, cfg caseCfg, body func(r *runner)) {
 	w.Op(cfg.cfgOp())
 	r := &runner{x: x, w: w}
 	t0 := time.Now()
-	// watchdog: a case that does not finish is a harness problem; show where everything is
-	// blocked, keep the cases completed so far (the stuck one is dropped) and stop generating
+	// watchdog: a case that does not finish; show where everything is blocked, keep the cases
+	// completed so far, report the stuck one and stop generating
 	wd := time.AfterFunc(40*time.Second, func() {
 		buf := make([]byte, 1<<20)
 		n := runtime.Stack(buf, true)
@@ -111,6 +111,10 @@ func runCase(w *tr.Writer, id string, cfg caseCfg, body func(r *runner)) {
 		if d := os.Getenv("VERIF_STUCK_DIR"); d != "" {
 			os.WriteFile(fmt.Sprintf("%s/stuck-%d-%s.txt", d, os.Getpid(), id), buf[:n], 0o644)
 		}
+		// "returns within a bounded time" / "Stop ... without cancelling the shutdown": a case that never
+		// completes on a tree where every other case does is reported, with the ops issued so far
+		w.Fail("case-stuck", "watchdog", "the case did not complete within 40 s (engine or control call never returned); goroutine dump on stderr")
+		w.End()
 		w.Close(statsPath)
 		os.Exit(0)
 	})
@@ -485,11 +489,11 @@ func (r *runner) randCalls(n int, withRegister bool) {
 		case k == 6 && withRegister:
 			r.do("call", g, "register", "addr", "0", "0", "none", "0", "none")
 		case k == 7 && withRegister:
-			r.do("call", g, "register", "conn", "0", "1", "none", "0", "none")
+			r.do("call", g, "register", "conn", "0", r.rnd.PickS([]string{"1", "1", "0"}), "none", "0", "none")
 		case k == 8 && len(lc) > 0:
 			r.do("call", g, "elregister", tr.I(lc[0][1]), tr.B(r.rnd.Chance(50)), "1", "none", "0", "none")
 		case k == 9 && len(lc) > 0:
-			r.do("call", g, "elenroll", tr.I(lc[0][1]), tr.B(r.rnd.Chance(50)), "1", "none", "0", "none")
+			r.do("call", g, "elenroll", tr.I(lc[0][1]), tr.B(r.rnd.Chance(40)), r.rnd.PickS([]string{"1", "1", "0"}), "none", "0", "none")
 		case k == 10 && len(lc) > 0:
 			r.x.execN++
 			r.do("call", g, "execute", tr.I(lc[0][1]), tr.B(r.rnd.Chance(40)), tr.I(r.x.execN))
